@@ -377,7 +377,7 @@ def coq_obligations(ctx, props_file, extra_targets=(), allowed_axioms=()):
     for t in extra_targets:
         cone += [f for f in coq_cone(t.replace(".vo", ".v")) if f not in cone]
     bad = scan_forbidden(cone)
-    ctx.coverage["coq_files_in_cone"] = sorted(cone)
+    ctx.coverage["coq_files_in_cone"] = sorted(set(ctx.coverage.get("coq_files_in_cone", [])) | set(cone))
     ctx.obligation("no-admitted-no-axiom-declarations(%d files)" % len(cone), "audit", not bad, "; ".join(bad))
     src = strip_coq_comments(open(os.path.join(COQ, props_file)).read())
     thms = THM_RE.findall(src)
@@ -412,7 +412,7 @@ def coq_obligations(ctx, props_file, extra_targets=(), allowed_axioms=()):
         ctx.obligation("axiom-audit-complete", "audit", False, "%d of %d theorems audited" % (len(chunks), len(thms)))
     ctx.trusted.append("axioms used by the property theorems (Print Assumptions): " +
                        (", ".join(sorted(axioms_seen)) if axioms_seen else "none (closed under the global context)"))
-    ctx.coverage["theorems"] = thms
+    ctx.coverage["theorems"] = ctx.coverage.get("theorems", []) + thms
     return True
 
 
